@@ -215,3 +215,19 @@ def run_cases(mod, ctx, cases, case_timeout):
                 ctx.violation("uncaught|%s" % exc_key(e),
                               "uncaught %s" % exc_brief(e), tbtxt)
     ctx.case = None
+
+
+def call(ctx, op, fn, *args, allowed=(), detail=None, **kw):
+    """Call library code.  Returns (True, result); (False, exc) when exc is one of
+    the operation's *documented* errors (``allowed``); any other exception is
+    reported through ctx.unexpected and also returned as (False, exc)."""
+    try:
+        return True, fn(*args, **kw)
+    except CaseTimeout:
+        raise
+    except Exception as e:
+        if allowed and isinstance(e, allowed):
+            ctx.ev("documented-error:%s:%s" % (op, type(e).__name__))
+            return False, e
+        ctx.unexpected(op, e, detail)
+        return False, e
